@@ -95,7 +95,8 @@ _PARTIAL_SCHED = (" PARTIAL: theorems are about the sequential model (one event 
                   "counterexamples and whose witnesses are replayed on the real code on every run; and not beginning with '$': such topics are "
                   "outside the properties' quantifier, the store turns them away and the oracle leaves events naming them open).")
 CLAIMS['C01'] = dict(category='proof', ref='5 Core E, 8 C01', text=_BROKER_TEXT % (
-    "Theorems (9): exact ordered outputs of the fan-out loop incl. the in-place message mutation (C01_fanout_char, C01_fanout_ids); onPublish delivers to "
+    "Theorems (10): exact ordered outputs of the live fan-out incl. the in-place message mutation - RETAIN cleared once before the loop for connections and "
+    "in-process callbacks alike, restored after it (C01_fanout_char on fanoutLive, C01_fanout_loop on the bare loop, C01_fanout_ids); onPublish delivers to "
     "exactly one copy per trie entry whose filter matches under section 4.7, at min(publish QoS, granted QoS), same topic, identical payload, and to "
     "nobody else (C01_publish_reaches_matching_partial, _reachable_partial without the liveness hypothesis, C01_publish_held_partial / "
     "C01_nobody_else_partial in terms of the reference broker's held list); after any history (C01_after_history_partial); after a connection end "
@@ -109,8 +110,10 @@ CLAIMS['C07'] = dict(category='proof', ref='5 Core E, 8 C07', text=_BROKER_TEXT 
     "(C07_effective_after_suback_partial, C07_none_after_unsuback_partial); the held list of the reference broker is maintained (C07_held_refines_partial, "
     "_srv_partial; B3 counterexample); regenerated maximum QoS = specification's (C07_facts_maxQos); invariant preserved by every step (C07_inv_step/_run).") + _PARTIAL_SCHED)
 CLAIMS['C08'] = dict(category='proof', ref='5 Core E, 8 C08', text=_BROKER_TEXT % (
-    "Theorems (18): every PUBLISH forwarded by onPublish/fanout (any step other than a SUBSCRIBE) to a connection carries RETAIN=0 "
-    "(C08_forward_retain_zero, C08_fanout_retain_zero, C08_step_retain_zero); E10 callback counterexample as a closed term; the retain step stores / "
+    "Theorems (19): every PUBLISH forwarded by onPublish/fanoutLive (any step other than a SUBSCRIBE) to a connection and every live forward handed to an "
+    "in-process callback (any step other than its own Server.Subscribe) carries RETAIN=0 (C08_forward_retain_zero, _all, C08_fanout_retain_zero, "
+    "C08_step_retain_zero); an in-process subscriber sees RETAIN=0 on a live forward and RETAIN=1 on the retained delivery at subscription time "
+    "(C08_callback_retain; E10, repaired by 4cf3ecf); the retain step stores / "
     "replaces / clears exactly that topic (C08_retain_step_partial, C08_one_per_topic_partial, C08_other_topics_untouched_partial, C08_retained_untouched); "
     "the store is the last non-empty retained publish per topic (C08_spec_most_recent, C08_retain_refines_partial, C08_history_partial); after the SUBACK, "
     "per granted filter in request order, exactly the stored messages matching it, RETAIN=1, QoS min(stored, granted), payload as stored "
